@@ -245,6 +245,9 @@ func main() {
 	}
 	close(ch)
 	wg.Wait()
+	if *onlyKey == "" {
+		growStage()
+	}
 	rep.Exhaustive = false
 	rep.Write(orc)
 }
